@@ -915,6 +915,12 @@ impl<'a> Message<'a> {
                 }
             })?;
 
+            // FINGERPRINT is always the last attribute
+            if seen_ending_attributes[..seen_ending_len].contains(&Fingerprint::TYPE) {
+                warn!("unexpected attribute {} after FINGERPRINT", attr.get_type());
+                return Err(StunParseError::AttributeAfterFingerprint(attr.get_type()));
+            }
+
             // if we have seen any ending attributes, then there is only a fixed set of attributes
             // that are allowed.
             if seen_ending_len > 0 && !ending_attributes.contains(&attr.get_type()) {
